@@ -8,6 +8,7 @@ import (
 	"os"
 	"runtime/debug"
 	"sort"
+	"strings"
 
 	"github.com/mlange-42/ark/ecs"
 	u "verifharness/universe"
@@ -172,7 +173,7 @@ func RunCase(seed uint64, idx int, p *Profile, o *Opts, st *Stats) (cr *CaseResu
 			if _, sk := res.PanicVal.(skipMisuse); sk {
 				skipped = true
 			} else if !x.Panic {
-				d.viol("C10", "valid-call-panicked", "valid operation %s panicked: %v", op, res.PanicVal)
+				d.viol("C10", "valid-call-panicked", "valid operation %s panicked: %v\n%s", op, res.PanicVal, trimStack(res.Stack))
 				stop = true
 			} else {
 				st.ExpPanics++
@@ -191,6 +192,12 @@ func RunCase(seed uint64, idx int, p *Profile, o *Opts, st *Stats) (cr *CaseResu
 		}
 		if !res.Panicked {
 			cr.Effective++
+		}
+		if x.Panic && res.Panicked {
+			// a rejected call must not have consumed an entity ID
+			if used := d.W.Stats().Entities.Used; used != m.NAlive {
+				d.viol("C10", "misuse-effect", "after rejected %s: Stats().Entities.Used=%d, model alive %d", MisuseTable[op.Slot].Name, used, m.NAlive)
+			}
 		}
 		if !stop {
 			d.judgeObservers(x, reg, res)
@@ -474,4 +481,28 @@ func SortedKeys(m map[string]int64) []string {
 	}
 	sort.Strings(ks)
 	return ks
+}
+
+// trimStack keeps the frames between the panic and the harness.
+func trimStack(s string) string {
+	lines := strings.Split(s, "\n")
+	var out []string
+	on := false
+	for i := 0; i+1 < len(lines); i++ {
+		if strings.HasPrefix(lines[i], "panic(") {
+			on = true
+			i++
+			continue
+		}
+		if on {
+			if strings.Contains(lines[i], "verifharness/eng.(*Drv).Exec") {
+				break
+			}
+			out = append(out, lines[i])
+		}
+		if len(out) > 24 {
+			break
+		}
+	}
+	return strings.Join(out, "\n")
 }
